@@ -34,15 +34,21 @@ def job_triangle():
     n = z3.Int("n")
     tri = z3.Function("packed", z3.IntSort(), z3.RealSort())
 
+    # loop state by role: the dense matrix is what the loop fills and the function returns, the read position in the
+    # packed array is the other value carried from one iteration to the next
+    _, _, ret, _, _, carried = source.loop_roles("iodata.formats.fchk", "_triangle_to_dense", 0)
+    RESULT = [nm for nm in carried if nm in ret][0]
+    BEGIN = [nm for nm in carried if nm not in ret][0]
+
     def havoc(interp, frame, k):
         ctx = interp.ctx
         f = z3.Function(ctx.fresh("dense"), z3.IntSort(), z3.IntSort(), z3.RealSort())
-        frame.locals["result"] = SArr((n, n), lambda idx: f(*idx), "float")
-        frame.locals["begin"] = SInt(ctx.fresh_int("begin"))
+        frame.locals[RESULT] = SArr((n, n), lambda idx: f(*idx), "float")
+        frame.locals[BEGIN] = SInt(ctx.fresh_int("begin"))
 
     def inv(interp, frame, k):
-        res = frame.locals["result"]
-        begin = to_z3(frame.locals["begin"])
+        res = frame.locals[RESULT]
+        begin = to_z3(frame.locals[BEGIN])
         i, j = z3.Ints("ti tj")
         return z3.And(
             k <= n,
